@@ -1,1 +1,321 @@
-fn main() {}
+//! C14 — PCA and truncated SVD.  Generates integer-valued data matrices (correlated columns
+//! with different scales and large means, rank-deficient data, repeated eigenvalues, both
+//! m > p and m <= p), fits the real `PCA` (covariance and correlation mode) and truncated `SVD`
+//! for every admissible number of components, and records components and transforms as
+//! fixed-point integers at several scales.  No property logic: every verdict (including the
+//! choice of the scale that is safe for 32-bit arithmetic) is taken by spec/decomp/Pca.tla.
+use rand::rngs::StdRng;
+use rand::Rng;
+use serde_json::{json, Value};
+use smartcore::decomposition::pca::{PCAParameters, PCA};
+use smartcore::decomposition::svd::{SVDParameters, SVD};
+use smartcore::linalg::naive::dense_matrix::DenseMatrix;
+use smartcore::linalg::svd::SVDDecomposableMatrix;
+use smartcore::linalg::BaseMatrix;
+use vutil::*;
+
+const SCALES: [u32; 4] = [10, 8, 6, 4];
+
+fn dm(x: &[Vec<i64>]) -> DenseMatrix<f64> {
+    let rows: Vec<Vec<f64>> = x.iter().map(|r| r.iter().map(|&v| v as f64).collect()).collect();
+    DenseMatrix::from_2d_vec(&rows)
+}
+
+fn rows_of(m: &DenseMatrix<f64>) -> Vec<Vec<f64>> {
+    let (r, c) = m.shape();
+    (0..r).map(|i| (0..c).map(|j| m.get(i, j)).collect()).collect()
+}
+
+fn all_finite(ms: &[&Vec<Vec<f64>>]) -> bool {
+    ms.iter().all(|m| m.iter().all(|r| r.iter().all(|v| v.is_finite())))
+}
+
+struct PcaOut {
+    p: Vec<Vec<f64>>,
+    y: Vec<Vec<f64>>,
+    yz: Vec<Vec<f64>>,
+    yzs: Vec<Vec<f64>>,
+}
+
+/// fit with k components; transform the training matrix, the stacked query rows, and the two
+/// halves of the query rows separately
+fn pca_fit(x: &[Vec<i64>], z: &[Vec<i64>], k: usize, corr: bool) -> Result<Result<PcaOut, ()>, String> {
+    let xm = dm(x);
+    let zm = dm(z);
+    let z1 = dm(&z[..z.len() / 2 + 1]);
+    let z2 = dm(&z[z.len() / 2 + 1..]);
+    guard(move || {
+        let r = PCA::fit(&xm, PCAParameters::default().with_n_components(k).with_use_correlation_matrix(corr)).and_then(|m| {
+            let y = m.transform(&xm)?;
+            let yz = m.transform(&zm)?;
+            let mut yzs = rows_of(&m.transform(&z1)?);
+            yzs.extend(rows_of(&m.transform(&z2)?));
+            Ok(PcaOut { p: rows_of(m.components()), y: rows_of(&y), yz: rows_of(&yz), yzs })
+        });
+        r.map_err(|_| ())
+    })
+}
+
+struct TsvdOut {
+    c: Vec<Vec<f64>>,
+    y: Vec<Vec<f64>>,
+    yz: Vec<Vec<f64>>,
+    yzs: Vec<Vec<f64>>,
+}
+
+fn tsvd_fit(x: &[Vec<i64>], z: &[Vec<i64>], k: usize) -> Result<Result<TsvdOut, ()>, String> {
+    let xm = dm(x);
+    let zm = dm(z);
+    let z1 = dm(&z[..z.len() / 2 + 1]);
+    let z2 = dm(&z[z.len() / 2 + 1..]);
+    guard(move || {
+        let r = SVD::fit(&xm, SVDParameters::default().with_n_components(k)).and_then(|m| {
+            let y = m.transform(&xm)?;
+            let yz = m.transform(&zm)?;
+            let mut yzs = rows_of(&m.transform(&z1)?);
+            yzs.extend(rows_of(&m.transform(&z2)?));
+            Ok(TsvdOut { c: rows_of(m.components()), y: rows_of(&y), yz: rows_of(&yz), yzs })
+        });
+        r.map_err(|_| ())
+    })
+}
+
+fn status_of<T>(r: &Result<Result<T, ()>, String>) -> &'static str {
+    match r {
+        Ok(Ok(_)) => "ok",
+        Ok(Err(_)) => "err",
+        Err(_) => "panic",
+    }
+}
+
+// ------------------------------------------------------------------ generators
+fn gen_x(rng: &mut StdRng, m: usize, p: usize, fam: &str, small: bool) -> Vec<Vec<i64>> {
+    let mut x = vec![vec![0i64; p]; m];
+    let amp: i64 = if small { 2 } else { 5 };
+    let mean = |rng: &mut StdRng| -> i64 { [0, 3, -20, 150, -1000][rng.gen_range(0..5)] };
+    match fam {
+        "latent" => {
+            let t: Vec<i64> = (0..m).map(|_| rng.gen_range(-3..=3)).collect();
+            let u: Vec<i64> = (0..m).map(|_| rng.gen_range(-2..=2)).collect();
+            for j in 0..p {
+                let c = mean(rng);
+                let a: i64 = rng.gen_range(-amp / 2 - 1..=amp / 2 + 1);
+                let b: i64 = rng.gen_range(-1..=1);
+                for i in 0..m {
+                    x[i][j] = c + a * t[i] + b * u[i] + rng.gen_range(-1..=1);
+                }
+            }
+        }
+        "rankdef" => {
+            for j in 0..p {
+                let c = mean(rng);
+                let a: i64 = rng.gen_range(1..=amp);
+                for i in 0..m {
+                    x[i][j] = c + rng.gen_range(-a..=a);
+                }
+            }
+            if p >= 3 {
+                for i in 0..m {
+                    x[i][p - 1] = x[i][0] - x[i][1] + 7;
+                }
+            } else if p == 2 {
+                for i in 0..m {
+                    x[i][1] = 2 * x[i][0] - 5;
+                }
+            }
+        }
+        "repeat" => {
+            // mutually orthogonal +-a patterns (Walsh functions of the row index): equal
+            // variances when m is a multiple of 2^p, i.e. repeated eigenvalues
+            let a: i64 = rng.gen_range(1..=amp);
+            for j in 0..p {
+                let c = mean(rng);
+                for i in 0..m {
+                    let bit = (i >> (j % 4)) & 1;
+                    x[i][j] = c + if bit == 1 { a } else { -a };
+                }
+            }
+        }
+        _ => {
+            for j in 0..p {
+                let c = mean(rng);
+                let a: i64 = rng.gen_range(1..=amp + 1);
+                for i in 0..m {
+                    x[i][j] = c + rng.gen_range(-a..=a);
+                }
+            }
+        }
+    }
+    x
+}
+
+fn has_constant_column(x: &[Vec<i64>]) -> bool {
+    (0..x[0].len()).any(|j| x.iter().all(|r| r[j] == x[0][j]))
+}
+
+fn gen_z(rng: &mut StdRng, x: &[Vec<i64>]) -> Vec<Vec<i64>> {
+    let m = x.len();
+    (0..3)
+        .map(|_| {
+            let r = &x[rng.gen_range(0..m)];
+            r.iter().map(|&v| v + rng.gen_range(-2..=2)).collect()
+        })
+        .collect()
+}
+
+fn quantise(mats: &[(&str, &Vec<Vec<f64>>)], vecs: &[(&str, &Vec<f64>)]) -> Vec<Value> {
+    let mut q = vec![];
+    for &s in SCALES.iter() {
+        let qz = Q::with_limit(s, 1.0e9);
+        let mut o = serde_json::Map::new();
+        o.insert("S".into(), json!(s));
+        for (name, m) in mats {
+            o.insert(name.to_string(), json!(qz.m(m)));
+        }
+        for (name, v) in vecs {
+            o.insert(name.to_string(), json!(qz.v(v)));
+        }
+        if qz.ok() {
+            q.push(Value::Object(o));
+        }
+    }
+    q
+}
+
+const FAMS: [&str; 4] = ["latent", "dense", "rankdef", "repeat"];
+
+fn gen(path: &str) {
+    let mut out = Out::create(path);
+    let mut rng = rng(14);
+    let thorough = thorough();
+    let n_data = if thorough { 16000 } else { 2500 };
+    let mut run = 0i64;
+    let mut counts = std::collections::BTreeMap::new();
+    let mut bump = |k: String| *counts.entry(k).or_insert(0usize) += 1;
+    for d in 0..n_data {
+        let big = thorough && d % 4 == 0;
+        let p: usize = if big { rng.gen_range(3..=8) } else { rng.gen_range(1..=4) };
+        let wide = d % 3 == 0;
+        let m: usize = if wide { rng.gen_range(2..=p.max(2)) } else if big { rng.gen_range(p + 1..=40) } else { rng.gen_range(p + 1..=12) };
+        let fam = FAMS[rng.gen_range(0..FAMS.len())];
+        let x = gen_x(&mut rng, m, p, fam, big);
+        let z = gen_z(&mut rng, &x);
+        let famtag = format!("{}{}", fam, if wide { "/wide" } else { "" });
+        // ---- PCA, both modes, every k
+        for &corr in &[false, true] {
+            if corr && has_constant_column(&x) {
+                continue; // standardisation undefined: outside the statement
+            }
+            let full = pca_fit(&x, &z, p, corr);
+            let yf: Vec<Vec<f64>> = match &full {
+                Ok(Ok(o)) => o.y.clone(),
+                _ => vec![],
+            };
+            for k in 1..=p {
+                run += 1;
+                let r = if k == p { pca_fit(&x, &z, p, corr) } else { pca_fit(&x, &z, k, corr) };
+                let st = status_of(&r);
+                bump(format!("pca-{}", st));
+                let (fin, q) = match &r {
+                    Ok(Ok(o)) => {
+                        let fin = all_finite(&[&o.p, &o.y, &o.yz, &o.yzs, &yf]) && !yf.is_empty();
+                        (fin, if fin { quantise(&[("P", &o.p), ("Y", &o.y), ("Yf", &yf), ("YZ", &o.yz), ("YZs", &o.yzs)], &[]) } else { vec![] })
+                    }
+                    _ => (false, vec![]),
+                };
+                out.emit(json!({"run": run, "ev": "Pca", "fam": famtag, "mode": if corr {"corr"} else {"cov"}, "m": m, "p": p, "k": k,
+                    "X": x, "Z": z, "status": st, "fin": fin, "q": q}));
+            }
+        }
+        // ---- truncated SVD, every k <= p (k = p must be rejected).  No centring here, so the
+        // column means are made moderate (the magnitudes enter the squared norms directly)
+        let x: Vec<Vec<i64>> = {
+            let offs: Vec<i64> = (0..p).map(|_| [0, 2, -5, 9][rng.gen_range(0..4)]).collect();
+            let mu: Vec<i64> = (0..p).map(|j| (x.iter().map(|r| r[j]).sum::<i64>() as f64 / m as f64).round() as i64).collect();
+            x.iter().map(|r| (0..p).map(|j| r[j] - mu[j] + offs[j]).collect()).collect()
+        };
+        let z: Vec<Vec<i64>> = gen_z(&mut rng, &x);
+        let sv = guard(|| dm(&x).svd().map_err(|_| ()));
+        for k in 1..=p {
+            run += 1;
+            let r = tsvd_fit(&x, &z, k);
+            let st = status_of(&r);
+            bump(format!("tsvd-{}{}", st, if k == p { "(k=p)" } else { "" }));
+            let (fin, q) = match (&r, &sv) {
+                (Ok(Ok(o)), Ok(Ok(svd))) => {
+                    let v = rows_of(&svd.V);
+                    let s: Vec<f64> = svd.s.clone();
+                    let fin = all_finite(&[&o.c, &o.y, &o.yz, &o.yzs, &v]) && s.iter().all(|t| t.is_finite());
+                    (fin, if fin { quantise(&[("Cm", &o.c), ("Y", &o.y), ("Vf", &v), ("YZ", &o.yz), ("YZs", &o.yzs)], &[("sv", &s)]) } else { vec![] })
+                }
+                _ => (false, vec![]),
+            };
+            out.emit(json!({"run": run, "ev": "Tsvd", "fam": famtag, "m": m, "p": p, "k": k,
+                "X": x, "Z": z, "status": st, "fin": fin, "q": q}));
+        }
+    }
+    let n = out.finish();
+    println!("events={} statuses={:?}", n, counts);
+}
+
+/// re-execute the events of a replay artefact
+fn replay_file(input: &str, path: &str) {
+    let evs = read_ndjson(input);
+    let mut out = Out::create(path);
+    for e in evs {
+        let x: Vec<Vec<i64>> = serde_json::from_value(e["X"].clone()).unwrap();
+        let z: Vec<Vec<i64>> = serde_json::from_value(e["Z"].clone()).unwrap();
+        let k = e["k"].as_u64().unwrap() as usize;
+        let p = x[0].len();
+        let mut o = e.clone();
+        if e["ev"] == "Pca" {
+            let corr = e["mode"] == "corr";
+            let full = pca_fit(&x, &z, p, corr);
+            let yf: Vec<Vec<f64>> = match &full { Ok(Ok(o)) => o.y.clone(), _ => vec![] };
+            let r = pca_fit(&x, &z, k, corr);
+            o["status"] = json!(status_of(&r));
+            match &r {
+                Ok(Ok(f)) => {
+                    let fin = all_finite(&[&f.p, &f.y, &f.yz, &f.yzs, &yf]) && !yf.is_empty();
+                    o["fin"] = json!(fin);
+                    o["q"] = json!(if fin { quantise(&[("P", &f.p), ("Y", &f.y), ("Yf", &yf), ("YZ", &f.yz), ("YZs", &f.yzs)], &[]) } else { vec![] });
+                }
+                _ => {
+                    o["fin"] = json!(false);
+                    o["q"] = json!([]);
+                }
+            }
+        } else {
+            let sv = guard(|| dm(&x).svd().map_err(|_| ()));
+            let r = tsvd_fit(&x, &z, k);
+            o["status"] = json!(status_of(&r));
+            match (&r, &sv) {
+                (Ok(Ok(f)), Ok(Ok(svd))) => {
+                    let v = rows_of(&svd.V);
+                    let fin = all_finite(&[&f.c, &f.y, &f.yz, &f.yzs, &v]) && svd.s.iter().all(|t| t.is_finite());
+                    o["fin"] = json!(fin);
+                    o["q"] = json!(if fin { quantise(&[("Cm", &f.c), ("Y", &f.y), ("Vf", &v), ("YZ", &f.yz), ("YZs", &f.yzs)], &[("sv", &svd.s)]) } else { vec![] });
+                }
+                _ => {
+                    o["fin"] = json!(false);
+                    o["q"] = json!([]);
+                }
+            }
+        }
+        out.emit(o);
+    }
+    println!("events={}", out.finish());
+}
+
+fn main() {
+    silence_panics();
+    let args: Vec<String> = std::env::args().collect();
+    match arg(&args, 1) {
+        "gen" => gen(arg(&args, 2)),
+        "replay-file" => replay_file(arg(&args, 2), arg(&args, 3)),
+        other => {
+            eprintln!("unknown sub-command {}", other);
+            std::process::exit(2)
+        }
+    }
+}
